@@ -134,6 +134,7 @@ var c15Steps = []string{
 	"ok-call", "closed-call", "closed-push", "unknown-route", "bad-body", "panic", "badtype", "presend-outside", "dial-fail", "cut-mid-call",
 	"truncated-reply-mid-call", "garbage-reply-mid-call", "session-age-expires-mid-call",
 	"reply-404-write-times-out", "reply-400-write-times-out", "reply-500-write-times-out",
+	"redial-fails-then-traffic", "redial-fails-then-traffic",
 	"proxy-call-down", "proxy-push-down", "proxy-call-dies", "proxy-call-ok", "auth-reject", "secure-wrong-key", "overload-reject",
 }
 
@@ -177,6 +178,35 @@ func (x *c15World) step(name string) {
 		}
 	case "dial-fail":
 		x.cli.Dial("127.0.0.1:1")
+	case "redial-fails-then-traffic":
+		// a redial-enabled client whose server goes away for good: calls and pushes issued
+		// while it redials and after it gave up
+		srv := x.w.Peer(erpc.PeerConfig{})
+		r, pr := registerLib(srv)
+		ts := &tcpServer{peer: srv}
+		if err := ts.listen(); err != nil {
+			return
+		}
+		rp := x.w.Peer(erpc.PeerConfig{RedialTimes: 2, RedialInterval: time.Millisecond, DialTimeout: 200 * time.Millisecond})
+		sess, st := rp.Dial(ts.addr)
+		if !st.OK() {
+			ts.down()
+			return
+		}
+		sess.Call(r, &LibArg{Rid: "rd0", Act: "ret"}, new(LibRes))
+		ts.down()
+		vt.Returns(func() { sess.Call(r, &LibArg{Rid: "rd1", Act: "ret"}, new(LibRes)) })
+		vt.Returns(func() { sess.Push(pr, &LibArg{Rid: "rd2"}) })
+		vt.WaitUntilFor(2*time.Second, func() bool {
+			select {
+			case <-sess.CloseNotify():
+				return true
+			default:
+				return false
+			}
+		})
+		vt.Returns(func() { sess.Call(r, &LibArg{Rid: "rd3", Act: "ret"}, new(LibRes)) })
+		vt.Returns(func() { sess.Push(pr, &LibArg{Rid: "rd4"}) })
 	case "cut-mid-call":
 		l := x.link(x.cli, x.srv)
 		entered, release := curLib().Gate("cutmid")
@@ -303,7 +333,7 @@ func (x *c15World) step(name string) {
 	}
 }
 
-const ruleC15 = "history = 1-12 steps drawn from {successful call, call/push on a closed session, unknown route, undecodable body, handler panic, frame of unsupported type, PreSend/PreCall outside the accept phase, refused dial, connection cut while a call waits, connection ending with a non-EOF read error while a call waits (truncated reply, over-limit garbage, session-age read deadline), error replies (404 / 400 / 500) that cannot be written because the reply context expired, proxied call and proxied push with the backend session closed, proxied call whose backend connection is cut mid-call, proxied call that succeeds, auth rejection, secure plugin with a wrong key, overloader rejection}; oracle (a): code/msg/cause of every predefined status (verif accessor) is identical before the history and after every step; oracle (b): a fixed battery of failing operations on fresh sessions yields identical triples before and after the history; non-trivial = the history contains a step that hands a predefined status by pointer to plugin or user code (proxy with backend down, closed-session call/push); distinct by history"
+const ruleC15 = "history = 1-12 steps drawn from {successful call, call/push on a closed session, unknown route, undecodable body, handler panic, frame of unsupported type, PreSend/PreCall outside the accept phase, refused dial, connection cut while a call waits, connection ending with a non-EOF read error while a call waits (truncated reply, over-limit garbage, session-age read deadline), error replies (404 / 400 / 500) that cannot be written because the reply context expired, calls and pushes on a redial-enabled session whose server is gone for good (during the redial and after it gave up), proxied call and proxied push with the backend session closed, proxied call whose backend connection is cut mid-call, proxied call that succeeds, auth rejection, secure plugin with a wrong key, overloader rejection}; oracle (a): code/msg/cause of every predefined status (verif accessor) is identical before the history and after every step; oracle (b): a fixed battery of failing operations on fresh sessions yields identical triples before and after the history; non-trivial = the history contains a step that hands a predefined status by pointer to plugin or user code (proxy with backend down, closed-session call/push); distinct by history"
 
 func TestC15StatusImmutable(t *testing.T) {
 	rec := vt.NewRec(t, "C15", "immutable", ruleC15)
